@@ -6,9 +6,11 @@ import (
 	"image"
 	"image/color"
 	"math"
+	"os"
 	"testing"
 
 	"github.com/reactivego/ivg"
+	"github.com/reactivego/ivg/raster"
 	"github.com/reactivego/ivg/render"
 	"pgregory.net/rapid"
 
@@ -19,7 +21,13 @@ import (
 	"verif/internal/spec"
 )
 
-func TestMain(m *testing.M) { harness.Main(m, "C05") }
+func TestMain(m *testing.M) {
+	// raster.RasterizerLogger prints every call to os.Stdout: park it.
+	if f, err := os.OpenFile(os.DevNull, os.O_WRONLY, 0); err == nil {
+		os.Stdout = f
+	}
+	harness.Main(m, "C05")
+}
 
 type Case struct {
 	ViewBox [4]ops.F32 `json:"viewbox"`
@@ -32,6 +40,9 @@ type Case struct {
 	PrevViewBox [4]ops.F32 `json:"prev_viewbox,omitempty"`
 	// PrevOpen: that earlier use stopped inside its path (a truncated graphic).
 	PrevOpen bool `json:"prev_open,omitempty"`
+	// Logged: the rasteriser is wrapped in the bundled raster.RasterizerLogger (a pass-through
+	// that prints every call).
+	Logged bool `json:"logged,omitempty"`
 	// RectAfterReset: the caller gives the viewBox first (Reset) and aims the Renderer at its
 	// rectangle afterwards (SetRasterizer); either order defines the same map.
 	RectAfterReset bool `json:"rect_after_reset,omitempty"`
@@ -65,11 +76,15 @@ func checkGeometry(c Case) error {
 		}
 	}
 	mark := len(rr.Calls)
+	var target raster.Rasterizer = rr
+	if c.Logged {
+		target = &raster.RasterizerLogger{Rasterizer: rr}
+	}
 	if c.RectAfterReset {
 		z.Reset(gen.VB(vb), ivg.DefaultPalette)
-		z.SetRasterizer(rr, rect)
+		z.SetRasterizer(target, rect)
 	} else {
-		z.SetRasterizer(rr, rect)
+		z.SetRasterizer(target, rect)
 		z.Reset(gen.VB(vb), ivg.DefaultPalette)
 	}
 	ops.ApplyAll(&z, c.Ops)
@@ -193,6 +208,7 @@ func genCase(t *rapid.T) Case {
 		}
 	}
 	c.RectAfterReset = rapid.IntRange(0, 3).Draw(t, "rectafter") == 0
+	c.Logged = rapid.IntRange(0, 9).Draw(t, "logged") == 0
 	switch rapid.IntRange(0, 3).Draw(t, "prev") {
 	case 0: // re-pointed to a rectangle of the same size elsewhere
 		c.PrevRect = [4]int{c.Rect[0] + rapid.IntRange(-40, 40).Draw(t, "pdx"), c.Rect[1] + rapid.IntRange(-40, 40).Draw(t, "pdy"), c.Rect[2], c.Rect[3]}
@@ -334,6 +350,9 @@ func classify(c Case) (bool, []string) {
 	}
 	if c.RectAfterReset {
 		labels = append(labels, "rectangle-given-after-the-viewbox")
+	}
+	if c.Logged {
+		labels = append(labels, "through-RasterizerLogger")
 	}
 	if c.PrevRect[2] > 0 {
 		labels = append(labels, "renderer-re-pointed")
